@@ -430,6 +430,10 @@ func runParallel(op string, rep *hx.Report, rig *snix.Rig, ep *sniproxy.Endpoint
 		downs[i] = rr.Bytes(down)
 	}
 	var appWg sync.WaitGroup
+	upDone := make([]chan struct{}, par) // closed when the application side has read all of stream i
+	for i := range upDone {
+		upDone[i] = make(chan struct{})
+	}
 	go func() {
 		for {
 			c, err := ep.Accept()
@@ -487,6 +491,7 @@ func runParallel(op string, rep *hx.Report, rig *snix.Rig, ep *sniproxy.Endpoint
 				if len(got) < len(ups[i]) {
 					fail("up-stream-incomplete", fmt.Sprintf("with %d connections in parallel, connection %d delivered only %d of %d bytes upstream", par, i, len(got), len(ups[i])))
 				}
+				close(upDone[i])
 				<-done
 				// keep the connection open until the client has everything and closes
 				io.Copy(io.Discard, c)
@@ -504,7 +509,9 @@ func runParallel(op string, rep *hx.Report, rig *snix.Rig, ep *sniproxy.Endpoint
 			}
 			defer cl.Close()
 			cl.SetDeadline(time.Now().Add(40 * time.Second))
+			wrote := make(chan struct{})
 			go func() {
+				defer close(wrote)
 				cl.Write(hello)
 				cl.Write([]byte{byte(i)})
 				d := ups[i]
@@ -535,6 +542,12 @@ func runParallel(op string, rep *hx.Report, rig *snix.Rig, ep *sniproxy.Endpoint
 			}
 			if len(got) < len(downs[i]) {
 				fail("down-stream-incomplete", fmt.Sprintf("with %d connections in parallel, client %d received only %d of %d bytes", par, i, len(got), len(downs[i])))
+			}
+			// keep the connection open until everything written has been read at the other end
+			<-wrote
+			select {
+			case <-upDone[i]:
+			case <-time.After(40 * time.Second):
 			}
 		}(i)
 	}
